@@ -147,3 +147,20 @@ def make_estimator(sys, w=1.0):
     est.register_system(sources, lb=sys["lb"], ub=sys["ub"])
     assert np.array_equal(est.A, sys["A"]), "estimator A differs from the generated capture matrix"
     return est
+
+
+def sibling(sys):
+    """same sources and bounds, another baseline: a call on the sibling must leave no trace in a later call on sys
+    (module-level caches keyed on an incomplete description of the problem)"""
+    s = dict(sys)
+    b = sys["baseline"]
+    s["baseline"] = (np.asarray(b, dtype=float) + 0.75) if np.ndim(b) else float(b) + 0.75
+    return s
+
+
+def warm(fn):
+    """run a warm-up call, ignoring its outcome"""
+    try:
+        fn()
+    except Exception:  # noqa
+        pass
